@@ -975,6 +975,14 @@ def FANTOGGLE(K=0, horizon=9, ops=None):
     return s
 
 
+def FANFLOW(K=0, horizon=2.25, ops=None):
+    '''A buffer that releases two parts in one event (two sources deliver at the same instant) to junctions fronting
+    machines with different idle times: the ranking has to be taken afresh for every part.'''
+    devs = [src('S1', 1), src('S2', 1), src('S3', 1), buf('B', ['S1', 'S2', 'S3'], 6), flow('F1', ['B']), flow('F2', ['B']),
+            proc('M1', ['F1'], 0.5), proc('M2', ['F1'], 0.875), proc('M3', ['F2'], 0.625), sink('K', ['M1', 'M2', 'M3'])]
+    return spec(f'FANFLOW[K0]', devs, horizon, [], 0)          # tie orders only: three sources at one instant branch enough
+
+
 def FANFAIL(K=2, horizon=8, ops=None):
     '''Parallel machines behind one source where one of them fails while idle and is repaired: from then on it has
     been waiting for a part since the repair, not since before the failure.'''
